@@ -12,7 +12,8 @@ class ParserError(Exception):
 
 class ParserException(ParserError):
     def __init__(self, message: str, location: Location) -> None:
-        self.location = location
+        # keep a snapshot: the token's location dict is updated again when the line is re-matched
+        self.location = {**location}
         super().__init__(
             "("
             + str(location["line"])
